@@ -98,11 +98,13 @@ def run(tier: str, seed: int) -> int:
         hists += model_histories(run_, 2, 1, 2, 2, "2 classes, arity<=2, shifts -1..1, <=2 insertions")
         hists += model_histories(run_, 3, 1, 1, 3, "3 classes, arity<=1, shifts -1..1, <=3 insertions")
         hists += random_histories(seed + 11, 4000, 5, 3, 3, 9)
+        hists += random_histories(seed + 13, 16000, 3, 2, 5, 6)
     else:
         hists += model_histories(run_, 2, 1, 2, 3, "2 classes, arity<=2, shifts -1..1, <=3 insertions")
         hists += model_histories(run_, 3, 1, 2, 2, "3 classes, arity<=2, shifts -1..1, <=2 insertions")
         hists += model_histories(run_, 2, 2, 1, 4, "2 classes, arity<=1, shifts -2..2, <=4 insertions")
         hists += random_histories(seed + 11, 60000, 7, 3, 3, 12)
+        hists += random_histories(seed + 13, 200000, 3, 2, 5, 6)
     evs = pmap(replay_history, hists, procs=16, chunk=256)
     traces = []
     for i, ((nc, h), ev) in enumerate(zip(hists, evs)):
